@@ -1,5 +1,5 @@
 """C08 -- propagation stops only at a common fixpoint and only ever shrinks domains (structural clauses)."""
-from ..rules import branching, engine, model, propagators, search
+from ..rules import branching, engine, model, optimize, propagators, search
 
 EXPLANATION = (
     "Static analysis of the fixpoint protocol: (i) wake-up sufficiency by bound-dependency analysis of every registered filtering function against the per-position mask derived from its trigger function (sign-split on coefficients, self-dependences and entailment guards excluded, ground-guarded reads counted as GROUND); 16 propagators watch MIN|MAX everywhere, 5 narrow ones are analysed; (ii) every write-back store announced with the exact bits; (iii) strict-tightening stores and emptiness test (domains only shrink, non-empty on 'consistent'); (iv) the wake-up table joins events; (v) a pass ends only when no enabled constraint is flagged. Does not decide that the fixpoint is the largest one."
@@ -14,6 +14,8 @@ def check(ctx, prog):
     model.rule_trigger_join(ctx, prog)
     engine.rule_flags_writers(ctx, prog, thorough=ctx.tier == "thorough")
     engine.rule_wakeup(ctx, prog)
+    optimize.rule_reset(ctx, prog)  # a restart leaves every constraint queued
+    engine.rule_stack_writers(ctx, prog, thorough=ctx.tier == "thorough")  # incl. the initial queue of a new solver
     branching.check_value_heuristics(ctx, prog)  # scope: R-BRANCH-EVENTS only
     engine.rule_queue_writers(ctx, prog, thorough=ctx.tier == "thorough")
     search.rule_solve_one(ctx, prog, want=("R-HANDOVER",))
